@@ -1,14 +1,15 @@
 #!/bin/bash
-# Build the Go harness against /repo's CURRENT working tree (replace => $REPO), tags verif.
-# Usage: build.sh [outdir]   (default /verif/build/bin)
+# Build one harness command against the CURRENT working tree of the repository (replace => $VERIF_REPO,
+# default /repo), with -tags verif.   Usage: build.sh <outdir> <cmd> [<cmd>...]   (cmd = directory under cmd/)
 set -e
 HERE="$(cd "$(dirname "$0")" && pwd)"
 REPO="${VERIF_REPO:-/repo}"
-OUT="${1:-$HERE/../build/bin}"
+OUT="$1"; shift
 mkdir -p "$OUT"
-export GOFLAGS=-mod=mod GOPROXY=off GOSUMDB=off GOTOOLCHAIN=local CGO_ENABLED=0
+export GOFLAGS=-mod=mod GOPROXY=off GOSUMDB=off GOTOOLCHAIN=local
 cd "$HERE"
 # go.mod is regenerated from the repository's own go.mod so that dependency versions follow it
+TMPMOD=$(mktemp)
 {
   echo "module verifharness"
   echo
@@ -18,7 +19,10 @@ cd "$HERE"
   sed -n '/^require (/,/^)/p' "$REPO/go.mod"
   sed -n '/^replace (/,/^)/p;/^replace [^(]/p' "$REPO/go.mod"
   echo "replace tkestack.io/galaxy => $REPO"
-} > go.mod
-cp "$REPO/go.sum" go.sum
-go build -tags verif -o "$OUT/gh" ./cmd/gh
-go build -tags verif -o "$OUT/fakecni" ./cmd/fakecni 2>/dev/null || true
+} > "$TMPMOD"
+MODFILE="$OUT/go.mod"
+cp "$TMPMOD" "$MODFILE"; rm -f "$TMPMOD"
+cp "$REPO/go.sum" "$OUT/go.sum"
+for c in "$@"; do
+  go build -modfile="$MODFILE" -tags verif -o "$OUT/$c" "./cmd/$c"
+done
